@@ -931,3 +931,203 @@ def reachable_tracking_flags(cfg, defs: Defs, target: int, env: dict[str, bool],
                         continue
                 todo.append((y, tuple(sorted(fl.items()))))
     return False
+
+
+_SETLIKE_CALLS = {"set", "frozenset"}
+_SETLIKE_METHODS = {"keys", "items"}
+
+
+def _setlike(e: ast.AST) -> bool:
+    from .loader import dotted
+
+    if isinstance(e, (ast.Set, ast.SetComp)):
+        return True
+    if isinstance(e, ast.Call):
+        if dotted(e.func) in _SETLIKE_CALLS:
+            return True
+        if isinstance(e.func, ast.Attribute) and e.func.attr in _SETLIKE_METHODS | {"difference", "intersection", "union"}:
+            return True
+    if isinstance(e, ast.BinOp) and isinstance(e.op, (ast.Sub, ast.BitAnd, ast.BitOr)):
+        return _setlike(e.left) or _setlike(e.right)
+    return False
+
+
+def narrowings(expr: ast.AST, *, intersections: bool = True) -> list[tuple[ast.AST, str]]:
+    """Constructs inside `expr` that make its value a *restriction* of the collection it is derived from: a set difference, an
+    intersection (unless `intersections=False`: the comparison itself may be one), `.difference()/.intersection()`, a
+    comprehension with an `if`, `filter(...)`.  Syntactic and exact: arithmetic `-`/`&` (no set-like operand) is not reported."""
+    from .loader import dotted
+
+    out: list[tuple[ast.AST, str]] = []
+    for n in ast.walk(expr):
+        if isinstance(n, ast.BinOp) and isinstance(n.op, ast.Sub) and (_setlike(n.left) or _setlike(n.right)):
+            out.append((n, f"set difference `- {norm(n.right)[:40]}`"))
+        elif intersections and isinstance(n, ast.BinOp) and isinstance(n.op, ast.BitAnd) and (_setlike(n.left) or _setlike(n.right)):
+            out.append((n, f"intersection `{norm(n)[:60]}`"))
+        elif isinstance(n, ast.Call) and isinstance(n.func, ast.Attribute) and n.func.attr in (("difference", "intersection") if intersections else ("difference",)):
+            out.append((n, f"`.{n.func.attr}({norm(n.args[0])[:40] if n.args else ''})`"))
+        elif isinstance(n, (ast.ListComp, ast.SetComp, ast.DictComp, ast.GeneratorExp)) and any(g.ifs for g in n.generators):
+            out.append((n, "filter `if " + " and ".join(norm(i)[:50] for g in n.generators for i in g.ifs) + "`"))
+        elif isinstance(n, ast.Call) and dotted(n.func) == "filter":
+            out.append((n, f"`{norm(n)[:50]}`"))
+    return out
+
+
+def element_domain(ctx, fn: FuncInfo, name: str, whole: tuple[str, ...], depth: int = 4, within: set[str] | None = None) -> list[tuple[str, str, ast.AST]]:
+    """Over which collection does the element held by local/parameter `name` of `fn` range?  Followed backwards through loop /
+    comprehension targets, uniquely defined locals and parameters (to the argument at every call site inside `within`, when given).
+    Answers [(verdict, why, node)], verdict 'whole' (the iterated collection is one of `whole`, unrestricted), 'restricted'
+    (a narrowing on the way: filter, difference, intersection) or 'unknown'."""
+    node = fn.node
+    defs = Defs(fn)
+    if depth <= 0:
+        return [("unknown", "depth exhausted", node)]
+
+    def from_expr(e: ast.AST, f: FuncInfo, d: Defs, dep: int) -> list[tuple[str, str, ast.AST]]:
+        r = d.resolve(e)
+        nar = narrowings(r)
+        if nar:
+            return [("restricted", nar[0][1], e)]
+        t = norm(r)
+        if t in whole:
+            return [("whole", t, e)]
+        out: list[tuple[str, str, ast.AST]] = []
+        names = [x.id for x in ast.walk(r) if isinstance(x, ast.Name)]
+        ps = [nm for nm in names if nm in f.param_names()]
+        if len(ps) == 1 and isinstance(r, ast.Name):
+            out += from_param(ps[0], f, dep - 1)
+        elif isinstance(r, ast.Name):
+            out += element_domain(ctx, f, r.id, whole, dep - 1, within)
+        else:
+            # a wrapper around one collection (`tuple(xs)`, `list(xs)`, `sorted(xs)`, `xs.values()`): look through it
+            inner = None
+            if isinstance(r, ast.Call) and isinstance(r.func, ast.Name) and r.func.id in ("tuple", "list", "sorted", "reversed", "iter", "enumerate") and len(r.args) >= 1:
+                inner = r.args[0]
+            elif isinstance(r, ast.Call) and isinstance(r.func, ast.Attribute) and r.func.attr in ("values", "copy") and not r.args:
+                inner = r.func.value
+            out += from_expr(inner, f, d, dep - 1) if inner is not None and dep > 0 else [("unknown", f"`{t[:50]}`", e)]
+        return out
+
+    def from_param(p: str, f: FuncInfo, dep: int) -> list[tuple[str, str, ast.AST]]:
+        if dep <= 0:
+            return [("unknown", "depth exhausted", f.node)]
+        sites = [s for s in ctx.cg.call_sites_of(f.qualname) if s.kind in ("call", "partial") and (within is None or s.caller.qualname in within)]
+        out: list[tuple[str, str, ast.AST]] = []
+        for s in sites:
+            a = bind_args(s.node, f).get(p)
+            if a is None:
+                out.append(("unknown", f"argument for `{p}` at {s.loc} not bound", s.node))
+            elif isinstance(a, ast.Name):
+                out += element_domain(ctx, s.caller, a.id, whole, dep, within)
+            else:
+                out += from_expr(a, s.caller, Defs(s.caller), dep)
+        return out or [("unknown", f"no call site of {f.name} found", f.node)]
+
+    # 1. a loop / comprehension target
+    its = [it for it in iterations(node) if any(isinstance(x, ast.Name) and x.id == name for x in ast.walk(it["target"]))]
+    res: list[tuple[str, str, ast.AST]] = []
+    for it in its:
+        if it["filters"]:
+            res.append(("restricted", "filter `" + it["filters"][0][0][:50] + "`", it["node"]))
+        else:
+            res += from_expr(it["iter"], fn, defs, depth)
+    if its:
+        return res
+    # 2. a parameter
+    if name in fn.param_names():
+        return from_param(name, fn, depth)
+    # 3. a uniquely defined local
+    v = defs.unique(name)
+    if v is not None:
+        return from_expr(v, fn, defs, depth)
+    return [("unknown", f"`{name}` has several definitions", node)]
+
+
+def callable_targets(ctx, fn: FuncInfo, expr: ast.AST, depth: int = 4) -> list[FuncInfo]:
+    """Functions of the package that the callable value `expr` (in `fn`) may denote - like CallGraph.resolve_callable, but also
+    followed through parameters (to the arguments at the call sites), uniquely defined locals, wrapper calls that take a
+    callable, and fields of record classes (to the arguments at the constructor sites)."""
+    from .loader import dotted
+
+    if depth <= 0:
+        return []
+    out = list(ctx.cg.resolve_callable(fn, expr))
+    out = [f for f in out if f.name not in ("__init__", "__post_init__")] or []
+    if out:
+        return out
+    prog = ctx.prog
+    if isinstance(expr, ast.Name):
+        if expr.id in fn.param_names():
+            for s in ctx.cg.call_sites_of(fn.qualname):
+                a = bind_args(s.node, fn).get(expr.id)
+                if a is not None and s.kind in ("call", "partial", "submit"):
+                    out += callable_targets(ctx, s.caller, a, depth - 1)
+            return _uniq(out)
+        for n in walk_no_nested(fn.node):
+            if isinstance(n, ast.Assign) and any(isinstance(t, ast.Name) and t.id == expr.id for t in n.targets):
+                out += callable_targets(ctx, fn, n.value, depth - 1)
+        return _uniq(out)
+    if isinstance(expr, ast.Call):
+        if dotted(expr.func) in ("functools.partial", "partial"):
+            return callable_targets(ctx, fn, expr.args[0], depth - 1) if expr.args else []
+        if not ctx.cg.resolve_callable(fn, expr.func):
+            return []  # not a wrapper of the package: what it returns is not followed
+        for a in [*expr.args, *[k.value for k in expr.keywords]]:
+            if isinstance(a, (ast.Name, ast.Attribute)) and not (isinstance(a, ast.Name) and a.id in ("self", "cls")):
+                out += callable_targets(ctx, fn, a, depth - 1)
+        return _uniq(out)
+    if isinstance(expr, ast.Attribute):
+        ty = ctx.cg.typer.expr(fn, expr.value)
+        for cq in sorted(ty.classes()):
+            cls = prog.classes.get(cq)
+            if cls is None or expr.attr not in cls.fields:
+                continue
+            order = list(cls.fields)
+            for f in prog.functions.values():
+                for c in walk_no_nested(f.node):
+                    if isinstance(c, ast.Call) and dotted(c.func) and prog.resolve_name(f.module, dotted(c.func), f) == cq:
+                        pos = order.index(expr.attr)
+                        a = next((k.value for k in c.keywords if k.arg == expr.attr), c.args[pos] if pos < len(c.args) and not any(isinstance(x, ast.Starred) for x in c.args[:pos + 1]) else None)
+                        if a is not None:
+                            out += callable_targets(ctx, f, a, depth - 1)
+        return _uniq(out)
+    return []
+
+
+def _uniq(fs: list[FuncInfo]) -> list[FuncInfo]:
+    seen, out = set(), []
+    for f in fs:
+        if f.qualname not in seen:
+            seen.add(f.qualname)
+            out.append(f)
+    return out
+
+
+def exit_avoiding(cfg, defs: Defs, avoid: set[int], env: dict[str, bool], *, normal_only: bool = True) -> list[int] | None:
+    """A path ENTRY -> EXIT that crosses no node of `avoid` and takes no branch that the facts `env` (atom text -> truth) rule out;
+    None when there is none (every admissible path passes `avoid`)."""
+    from .cfg import ENTRY, EXIT
+
+    ifs = {n: defs.resolve(cfg.stmt[n].test) for n in cfg.nodes(lambda s: isinstance(s, (ast.If, ast.While)))}
+    prev: dict[int, int] = {}
+    todo, seen = [ENTRY], {ENTRY}
+    while todo:
+        x = todo.pop()
+        if x == EXIT:
+            path = [x]
+            while path[-1] in prev:
+                path.append(prev[path[-1]])
+            return path[::-1]
+        for y in cfg.g.successors(x):
+            e = cfg.g.edges[x, y]
+            if y in seen or y in avoid or (normal_only and e.get("exceptional")):
+                continue
+            br = e.get("branch")
+            if br is not None and x in ifs:
+                v = bool_eval(ifs[x], env)
+                if v is not None and v != br:
+                    continue
+            seen.add(y)
+            prev[y] = x
+            todo.append(y)
+    return None
